@@ -27,10 +27,11 @@ from gverif.props import c10_lib as L
 QUICK_PICK = 20         # old signatures of the 3-name alphabet sampled in the quick tier
 N3 = 2290               # number of legal signatures over {a, b, c}, <= 3 parameters (asserted)
 N2 = 157
+BOTH = ("visit", "inplace")
 
 
-def run_tlc(cfg: str, nn: int, old: str, pick=(), emit=True, workers=4, dump_trace=False, timeout=1500):
-    consts = dict(L.kind_sets(), NNAMES=nn, OLD=old, PICK="{" + ", ".join(str(i) for i in sorted(pick)) + "}", EMIT="TRUE" if emit else "FALSE")
+def run_tlc(cfg: str, nn: int, old: str, pick=(), emit=True, workers=4, dump_trace=False, timeout=1500, routes=("visit",)):
+    consts = dict(L.kind_sets(), ROUTES="{" + ", ".join('"%s"' % r for r in routes) + "}", NNAMES=nn, OLD=old, PICK="{" + ", ".join(str(i) for i in sorted(pick)) + "}", EMIT="TRUE" if emit else "FALSE")
     return tlc.run("DiffSig", cfg, workers=workers, constants=consts, dump_trace=dump_trace, timeout=timeout, heap="3g")
 
 
@@ -43,13 +44,16 @@ class Table:
         self.sig = {}      # index -> key
         self.binds = {}    # index -> set of call shapes
         self.canon = set()
-        self.exp = {}      # (o, n) -> normalised expectation
+        self.exp = {}      # (o, n) -> normalised expectation (route "visit")
+        self.hist = {}     # (o, n) -> (normalised expectation, container history) of route "inplace"
         for c in res.cases:
             if c["t"] == "sig":
                 self.sig[c["i"]] = L.key(c["sig"])
                 self.binds[c["i"]] = {(b[0], tuple(sorted(b[1]))) for b in c["binds"]}
                 if c["canon"]:
                     self.canon.add(c["i"])
+            elif c["r"] == "inplace":
+                self.hist[(c["o"], c["n"])] = (L.normalise(c), c["ops"])
             else:
                 self.exp[(c["o"], c["n"])] = L.normalise(c)
         self.idx = {k: i for i, k in self.sig.items()}
@@ -96,19 +100,27 @@ def _judge_rows(olds):
     n_pairs = 0
     for o in olds:
         ok = tab.sig[o]
-        for n, nk in tab.sig.items():
-            exp = tab.expectation(o, n)
-            real, outcome = L.real_breakages(griffe, mods[o], mods[n])
+        work = [(n, nk, "visit") for n, nk in tab.sig.items()] + [(n, tab.sig[n], "inplace") for (oo, n) in tab.hist if oo == o]
+        for n, nk, route in work:
+            if route == "visit":
+                exp = tab.expectation(o, n)
+                real, outcome = L.real_breakages(griffe, mods[o], mods[n])
+            else:
+                exp, ops = tab.hist[(o, n)]
+                edited, outcome = L.build_inplace(griffe, mods[o], mods[n], ops)
+                real, outcome = L.real_breakages(griffe, mods[o], edited) if outcome == "ok" else (set(), outcome)
             n_pairs += 1
             # the antecedent of (i) recomputed from the interpreter's bind sets (validated = TLC's, see validate_reference)
             viols, d = L.judge(ok, nk, exp, real, outcome)
+            if route == "inplace":
+                viols = [(dict(sig, route="inplace"), what + f" [new parameters built in place: {ops}]") for sig, what in viols]
             if d:
                 drift += 1
                 drift_ex = drift_ex or f"f({L.render(ok)}) -> f({L.render(nk)}): real {sorted((k, p) for k, p, _ in real)} model {sorted(exp['b'])}"
             for sig, what in viols:
                 kk = json.dumps(sig, sort_keys=True)
                 if kk not in agg:
-                    agg[kk] = [0, sig, what, {"nn": tab.nn, "old": [list(p) for p in ok], "new": [list(p) for p in nk], "old_def": f"def f({L.render(ok)})", "new_def": f"def f({L.render(nk)})",
+                    agg[kk] = [0, sig, what, {"nn": tab.nn, "route": route, "old": [list(p) for p in ok], "new": [list(p) for p in nk], "old_def": f"def f({L.render(ok)})", "new_def": f"def f({L.render(nk)})",
                                               "real": sorted((k, p) for k, p, _ in real), "expected": {"breakages_model": sorted(exp["b"]), "breaking": exp["x"], "witness": exp["w"], "must": sorted(exp["m"]), "differ": sorted(exp["d"])}}]
                 agg[kk][0] += 1
     return agg, drift, drift_ex, n_pairs
@@ -201,7 +213,8 @@ def main(tier: str, replay: str | None = None):
         r0 = tlc.must(run_tlc("DiffSig_gen.cfg", nn, "pick", (), workers=1))
         t0 = Table(r0, nn)
         ko, kn = L.key(case["old"]), L.key(case["new"])
-        r1 = tlc.must(run_tlc("DiffSig_gen.cfg", nn, "pick", (t0.idx[ko],), workers=2))
+        inplace = case.get("route") == "inplace"
+        r1 = tlc.must(run_tlc("DiffSig_gen.cfg", nn, "pick", (t0.idx[ko],), workers=2, routes=BOTH if inplace else ("visit",)))
         run.add_tlc(r1)
         tab = Table(r1, nn)
         o, n = tab.idx[ko], tab.idx[kn]
@@ -212,9 +225,16 @@ def main(tier: str, replay: str | None = None):
             real, _ = L.cpython_binds(tab.sig[i], tab.names)
             if real != tab.binds[i]:
                 die("C10: PyBinds disagrees with CPython on the replayed signature")
-        real, outcome = L.real_breakages(griffe, L.visit_module(griffe, tab.sig[o]), L.visit_module(griffe, tab.sig[n]))
+        mo, mn = L.visit_module(griffe, tab.sig[o]), L.visit_module(griffe, tab.sig[n])
+        if inplace:
+            exp, ops = tab.hist[(o, n)]
+            mn, outcome = L.build_inplace(griffe, mo, mn, ops)
+            print("container history:", ops)
+        real, outcome = L.real_breakages(griffe, mo, mn) if (not inplace or outcome == "ok") else (set(), outcome)
         run.replayed()
         viols, _ = L.judge(tab.sig[o], tab.sig[n], exp, real, outcome)
+        if inplace:
+            viols = [(dict(sig, route="inplace"), what) for sig, what in viols]
         print(f"real: {sorted((k, p) for k, p, _ in real)}  model: {sorted(exp['b'])}  breaking: {exp['x']} witness: {exp['w']}")
         for sig, what in viols:
             run.violation(sig, what, case)
@@ -222,7 +242,7 @@ def main(tier: str, replay: str | None = None):
 
     rnd = random.Random(SEED)
     jobs = {
-        "two": lambda: run_tlc("DiffSig_check.cfg", 2, "all", workers=4),
+        "two": lambda: run_tlc("DiffSig_check.cfg", 2, "all", workers=4, routes=BOTH),
         "defect": lambda: run_tlc("DiffSig_defect.cfg", 2, "all", workers=1, dump_trace=True),
     }
     if tier == "quick":
@@ -243,7 +263,7 @@ def main(tier: str, replay: str | None = None):
             run.add_tlc(r)
             nn = 2 if k == "two" else 3
             old = "all" if k == "two" else ("pick" if tier == "quick" else "canon")
-            res[k] = run_tlc("DiffSig_gen.cfg", nn, old, pick if (k == "three" and tier == "quick") else (), workers=8, timeout=3000)
+            res[k] = run_tlc("DiffSig_gen.cfg", nn, old, pick if (k == "three" and tier == "quick") else (), workers=8, timeout=3000, routes=BOTH if k == "two" else ("visit",))
         tlc.must(res[k])
         run.add_tlc(res[k])
     tlc.must(res["defect"], allow_violations=True)
@@ -255,6 +275,8 @@ def main(tier: str, replay: str | None = None):
     two, three = Table(res["two"], 2), Table(res["three"], 3)
     if len(two.sig) != N2 or len(three.sig) != N3:
         die(f"C10: unexpected number of signatures: {len(two.sig)} / {len(three.sig)}")
+    if len(two.hist) != N2 * N2:
+        die(f"C10: expected {N2 * N2} in-place histories over the 2-name alphabet, TLC enumerated {len(two.hist)}")
     if len(two.exp) != N2 * N2:
         die(f"C10: expected {N2 * N2} pairs over the 2-name alphabet, TLC enumerated {len(two.exp)}")
     want3 = (QUICK_PICK if tier == "quick" else len(three.canon)) * N3
